@@ -173,7 +173,8 @@ func H_C12_norm(k1, k2 int) {
 	var doc []byte
 	// the reference is spelled in every form the statement names: shortcut, collapsed,
 	// full, and full image reference
-	switch vconcrete(nondetInt(0, 3)) {
+	form := vconcrete(nondetInt(0, 3))
+	switch form {
 	case 0:
 		doc = append(doc, '[')
 		doc = append(doc, t1...)
@@ -194,12 +195,22 @@ func H_C12_norm(k1, k2 int) {
 	doc = append(doc, "\n\n["...)
 	doc = append(doc, t2...)
 	doc = append(doc, "]: /u\n"...)
-	blocks, _ := Parse(doc)
+	blocks, refs := Parse(doc)
 	assume(len(blocks) >= 1)
 	resolved := hasLink(blocks[0].AsNode())
 	want := n1 != "" && n1 == n2
 	if want {
 		check(resolved, "C12.norm.should-resolve")
+		if form >= 2 {
+			// the WHOLE full reference resolves (not merely its label read as a shortcut
+			// reference): the link text / image description is "x"
+			out := renderWith(&HTMLRenderer{ReferenceMap: refs}, blocks[:1])
+			exp := "<p><a href=\"/u\">x</a></p>"
+			if form == 3 {
+				exp = "<p><img src=\"/u\" alt=\"x\"></p>"
+			}
+			check(string(out) == exp, "C12.norm.full-reference-resolves")
+		}
 	} else {
 		check(!resolved, "C12.norm.should-not-resolve")
 	}
